@@ -17,6 +17,7 @@ import (
 	"strings"
 
 	"golang.org/x/tools/go/ssa"
+	"golang.org/x/tools/go/packages"
 	"golang.org/x/tools/go/ssa/ssautil"
 )
 
@@ -176,7 +177,7 @@ func runC20(c *Ctx) {
 				continue // covered by the linux/arm configuration of the thorough tier
 			}
 			ol := c.Obl("R3", "utils/xor/"+xf.Name, "legacy implementation (stand-alone type check): n = min(len(a),len(b)), early return on n == 0, every dispatch arm receives (dst,a,b,n), n is returned, element-wise loops cover exactly [0,n)", 1)
-			lf, lfset, err := standaloneXor(xf.Name)
+			lf, lfset, lpkg, err := standaloneXor(xf.Name, files)
 			if err != nil {
 				ol.Undecide("stand-alone type check of %s failed: %v", xf.Name, err)
 				continue
@@ -187,7 +188,7 @@ func runC20(c *Ctx) {
 			} else if callsSubtle(lf) {
 				ol.Fail(token.NoPos, "%s: XorBytes calls crypto/subtle.XORBytes but is not a pure delegation", xf.Name)
 			} else {
-				legacyXorRules(ol, lf, lfset)
+				withStandalone(lpkg, func() { legacyXorRules(ol, lf, lfset) })
 			}
 		}
 	}
@@ -254,110 +255,231 @@ func checkDelegation(o *Obligation, f *ssa.Function) {
 }
 
 // standaloneXor type-checks one file of utils/xor on its own and returns its XorBytes in SSA form.
-func standaloneXor(name string) (*ssa.Function, *token.FileSet, error) {
+// standaloneXor type-checks the legacy file together with the files of the directory that a build selecting it
+// would also select (a tag assignment under which the file's constraint holds is searched), and builds SSA.
+func standaloneXor(name string, files []xorFile) (*ssa.Function, *token.FileSet, *ssa.Package, error) {
 	fset := token.NewFileSet()
-	path := filepath.Join(repoDir(), "utils", "xor", name)
-	af, err := parser.ParseFile(fset, path, nil, parser.ParseComments)
-	if err != nil {
-		return nil, nil, err
+	dir := filepath.Join(repoDir(), "utils", "xor")
+	var target *xorFile
+	tags := map[string]bool{}
+	for i := range files {
+		if files[i].Name == name {
+			target = &files[i]
+		}
+		if files[i].Expr != nil {
+			collectTags(files[i].Expr, tags)
+		}
+	}
+	if target == nil {
+		return nil, nil, nil, fmt.Errorf("%s not found", name)
+	}
+	var tagList []string
+	for t := range tags {
+		tagList = append(tagList, t)
+	}
+	sort.Strings(tagList)
+	var chosen map[string]bool
+	for m := 0; m < 1<<len(tagList) && chosen == nil; m++ {
+		on := map[string]bool{}
+		nArch := 0
+		for i, t := range tagList {
+			if m&(1<<i) != 0 {
+				on[t] = true
+				if knownArch[t] {
+					nArch++
+				}
+			}
+		}
+		if nArch > 1 {
+			continue
+		}
+		if target.ArchImpl != "" {
+			on[target.ArchImpl] = true
+		}
+		if target.Expr == nil || target.Expr.Eval(func(tag string) bool { return on[tag] }) {
+			// exactly one definition must be selected under this assignment
+			nDef := 0
+			for _, f := range files {
+				if f.Defines && (f.Expr == nil || f.Expr.Eval(func(tag string) bool { return on[tag] })) && (f.ArchImpl == "" || on[f.ArchImpl]) {
+					nDef++
+				}
+			}
+			if nDef == 1 {
+				chosen = on
+			}
+		}
+	}
+	if chosen == nil {
+		return nil, nil, nil, fmt.Errorf("no tag assignment selects %s alone", name)
+	}
+	var afs []*ast.File
+	for _, f := range files {
+		if f.Name != name {
+			if f.Expr != nil && !f.Expr.Eval(func(tag string) bool { return chosen[tag] }) {
+				continue
+			}
+			if f.ArchImpl != "" && !chosen[f.ArchImpl] {
+				continue
+			}
+		}
+		af, err := parser.ParseFile(fset, filepath.Join(dir, f.Name), nil, parser.ParseComments)
+		if err != nil {
+			return nil, nil, nil, err
+		}
+		afs = append(afs, af)
 	}
 	pkg := types.NewPackage("xorlegacy", "xor")
-	spkg, _, err := ssautil.BuildPackage(&types.Config{Importer: importer.ForCompiler(fset, "source", nil)}, fset, pkg, []*ast.File{af}, ssa.InstantiateGenerics)
+	spkg, _, err := ssautil.BuildPackage(&types.Config{Importer: importer.ForCompiler(fset, "source", nil)}, fset, pkg, afs, ssa.InstantiateGenerics)
 	if err != nil {
-		return nil, nil, err
+		return nil, nil, nil, err
 	}
 	f := spkg.Func("XorBytes")
 	if f == nil {
-		return nil, nil, fmt.Errorf("no XorBytes")
+		return nil, nil, nil, fmt.Errorf("no XorBytes")
 	}
-	return f, fset, nil
+	return f, fset, spkg, nil
 }
 
-// legacyXorRules checks a hand-written implementation.
+// withStandalone runs fn with the helper index (private helpers, call sites) of a stand-alone package.
+func withStandalone(spkg *ssa.Package, fn func()) {
+	oldSites, oldProg, oldPkg := curSites, curProg, standalonePkg
+	standalonePkg = spkg
+	tmp := &Prog{Pkgs: map[string]*packages.Package{}, SPkgs: map[string]*ssa.Package{}}
+	var add func(f *ssa.Function)
+	add = func(f *ssa.Function) {
+		if f == nil || f.Blocks == nil {
+			return
+		}
+		tmp.Funcs = append(tmp.Funcs, f)
+		for _, a := range f.AnonFuncs {
+			add(a)
+		}
+	}
+	var names []string
+	for n := range spkg.Members {
+		names = append(names, n)
+	}
+	sort.Strings(names)
+	for _, n := range names {
+		if f, ok := spkg.Members[n].(*ssa.Function); ok {
+			add(f)
+		}
+	}
+	buildCallSiteIndex(tmp)
+	defer func() { curSites, curProg, standalonePkg = oldSites, oldProg, oldPkg }()
+	fn()
+}
+
+// legacyXorRules checks a hand-written implementation, path by path (private helpers inlined).
 func legacyXorRules(o *Obligation, f *ssa.Function, fset *token.FileSet) {
 	pos := func(p token.Pos) string {
 		ps := fset.Position(p)
 		return fmt.Sprintf("%s:%d", filepath.Base(ps.Filename), ps.Line)
 	}
 	dst, a, b := f.Params[0], f.Params[1], f.Params[2]
-	// n = min(len(a), len(b))
-	var nVal ssa.Value
-	instrsOf(f, func(in ssa.Instruction) {
-		ph, ok := in.(*ssa.Phi)
-		if !ok || len(ph.Edges) != 2 {
-			return
+	// the xor routines (dst, a, b, n) are roles of their own: not inlined
+	savedEx := unitExclude
+	defer func() { unitExclude = savedEx }()
+	var routines []*ssa.Function
+	if f.Pkg != nil {
+		for _, m := range f.Pkg.Members {
+			if g, ok := m.(*ssa.Function); ok && g.Signature.Params().Len() == 4 {
+				routines = append(routines, g)
+			}
 		}
-		la := isLenOf(ph.Edges[0], func(v ssa.Value) bool { return sameOrigin(v, ssa.Value(a)) }) || isLenOf(ph.Edges[1], func(v ssa.Value) bool { return sameOrigin(v, ssa.Value(a)) })
-		lb := isLenOf(ph.Edges[0], func(v ssa.Value) bool { return sameOrigin(v, ssa.Value(b)) }) || isLenOf(ph.Edges[1], func(v ssa.Value) bool { return sameOrigin(v, ssa.Value(b)) })
-		if la && lb {
-			nVal = ph
-			// the edge carrying len(b) must be guarded by len(b) < len(a) (or <=)
-			for i, e := range ph.Edges {
-				if isLenOf(e, func(v ssa.Value) bool { return sameOrigin(v, ssa.Value(b)) }) {
-					okG := false
-					for _, ft := range append(guardsOfBlock(ph.Block().Preds[i]), lastBranchFact(ph.Block().Preds[i], ph.Block())...) {
-						cm, ok := normCmp(ft.Cond, ft.Val)
-						if ok && (cm.Op == token.LSS || cm.Op == token.LEQ) && isLenOf(cm.X, func(v ssa.Value) bool { return sameOrigin(v, ssa.Value(b)) }) && isLenOf(cm.Y, func(v ssa.Value) bool { return sameOrigin(v, ssa.Value(a)) }) {
-							okG = true
-						}
-					}
-					if !okG {
-						o.Fail(token.NoPos, "%s: n takes len(b) on an edge that has not established len(b) < len(a): n is not the minimum", pos(ph.Pos()))
-					}
+	}
+	setUnitExclude(routines...)
+	paths, ok := enumPathsU(f, 5000)
+	if !ok {
+		o.Undecide("%s: the paths of XorBytes could not be enumerated", pos(f.Pos()))
+		return
+	}
+	lenA, lenB := linSym("len("+a.Name()+")"), linSym("len("+b.Name()+")")
+	doneLoops := map[*ssa.Function]bool{}
+	nPaths := 0
+	for pi := range paths {
+		pt := paths[pi]
+		ret, isRet := pt.last().(*ssa.Return)
+		if !isRet || ret.Parent() != f || len(ret.Results) != 1 {
+			continue
+		}
+		nPaths++
+		pf := evalPath(pt)
+		// which of the two lengths is the minimum on this path
+		var min linForm
+		switch {
+		case pf.hasIneq(lenA.add(lenB, -1)), pf.hasIneq(lenA.add(lenB, -1).add(linConst(1), 1)): // len(b) < len(a), len(b) <= len(a)
+			min = lenB
+		case pf.hasIneq(lenB.add(lenA, -1)), pf.hasIneq(lenB.add(lenA, -1).add(linConst(1), 1)): // len(a) < len(b), len(a) <= len(b)
+			min = lenA
+		default:
+			o.Fail(token.NoPos, "%s: a path of XorBytes returns without having compared len(%s) with len(%s): n is not the minimum", pos(ret.Pos()), a.Name(), b.Name())
+			continue
+		}
+		nForm := pf.w.lin(ret.Results[0])
+		minZero := pf.hasEq(min, true)
+		// dispatch calls on the path
+		type disp struct {
+			call *ssa.Call
+			idx  int
+		}
+		var ds []disp
+		for idx, in := range pt.Instrs {
+			if cl, ok := in.(*ssa.Call); ok {
+				sc := cl.Call.StaticCallee()
+				if sc != nil && sc.Pkg == f.Pkg && sc.Signature.Params().Len() == 4 {
+					ds = append(ds, disp{cl, idx})
 				}
 			}
 		}
-	})
-	if nVal == nil {
-		o.Fail(token.NoPos, "%s: n = min(len(a), len(b)) not found", pos(f.Pos()))
-		return
-	}
-	o.Sites = append(o.Sites, pos(nVal.Pos())+" n = min(len(a), len(b))")
-	for _, in := range findInstrs(f, isReturn) {
-		ret := in.(*ssa.Return)
-		v := ret.Results[0]
-		if k, ok := constInt(v); ok && k == 0 {
-			if !hasFact(ret, func(ft fact) bool {
-				cm, ok := normCmp(ft.Cond, ft.Val)
-				return ok && cm.Op == token.EQL && ((cm.X == nVal && isConstZero(cm.Y)) || (cm.Y == nVal && isConstZero(cm.X)))
-			}) {
-				o.Fail(token.NoPos, "%s: 0 is returned on a path where n == 0 is not established", pos(ret.Pos()))
+		if minZero {
+			if !(nForm.eq(linConst(0)) || nForm.eq(min)) {
+				o.Fail(token.NoPos, "%s: with nothing to xor XorBytes returns %s", pos(ret.Pos()), nForm)
 			}
 			continue
 		}
-		if v != nVal {
-			o.Fail(token.NoPos, "%s: XorBytes returns something else than n", pos(ret.Pos()))
+		if !nForm.eq(min) {
+			if nForm.eq(linConst(0)) {
+				o.Fail(token.NoPos, "%s: 0 is returned on a path where n == 0 is not established", pos(ret.Pos()))
+			} else {
+				o.Fail(token.NoPos, "%s: XorBytes returns %s, not n = min(len(%s), len(%s)) = %s", pos(ret.Pos()), nForm, a.Name(), b.Name(), min)
+			}
+			continue
 		}
-	}
-	instrsOf(f, func(in ssa.Instruction) {
-		cl, ok := in.(*ssa.Call)
-		if !ok {
-			return
+		if len(ds) != 1 {
+			o.Fail(token.NoPos, "%s: a path of XorBytes with n > 0 runs %d xor routines (exactly one is needed)", pos(ret.Pos()), len(ds))
+			continue
 		}
+		cl, idx := ds[0].call, ds[0].idx
 		sc := cl.Call.StaticCallee()
-		if sc == nil || sc.Pkg != f.Pkg || sc.Signature.Params().Len() != 4 {
-			return
-		}
-		o.Sites = append(o.Sites, pos(cl.Pos())+" dispatch "+sc.Name())
 		args := cl.Call.Args
-		if args[3] != nVal {
-			o.Fail(token.NoPos, "%s: %s is not given n as its length", pos(cl.Pos()), sc.Name())
+		if got := pf.w.lin(pt.valueAt(args[3], idx)); !got.eq(min) {
+			o.Fail(token.NoPos, "%s: %s is not given n as its length (got %s)", pos(cl.Pos()), sc.Name(), got)
 		}
 		for i, want := range []*ssa.Parameter{dst, a, b} {
-			if !derivesFrom(args[i], func(v ssa.Value) bool { return sameOrigin(v, ssa.Value(want)) }, false) {
+			av := pt.valueAt(args[i], idx)
+			if !derivesFrom(av, func(v ssa.Value) bool { return pt.valueAt(v, idx) == ssa.Value(want) || sameOrigin(v, ssa.Value(want)) }, false) {
 				o.Fail(token.NoPos, "%s: argument %d of %s is not derived from %s", pos(cl.Pos()), i, sc.Name(), want.Name())
 			}
 			// pointer arguments must be &x[0]
-			if ia, ok := args[i].(*ssa.IndexAddr); ok {
+			if ia, ok := av.(*ssa.IndexAddr); ok {
 				if k, ok := constInt(ia.Index); !ok || k != 0 {
 					o.Fail(token.NoPos, "%s: %s receives a pointer that is not &%s[0]", pos(cl.Pos()), sc.Name(), want.Name())
 				}
 			}
 		}
-		if len(sc.Blocks) > 0 {
-			xorLoops(o, sc, pos)
+		if !doneLoops[sc] {
+			doneLoops[sc] = true
+			o.Sites = append(o.Sites, pos(cl.Pos())+" dispatch "+sc.Name())
+			if len(sc.Blocks) > 0 {
+				xorLoops(o, sc, pos)
+			}
 		}
-	})
+	}
+	o.Sites = append(o.Sites, fmt.Sprintf("%s %d paths of XorBytes return n = min(len(%s), len(%s)) (0 only when that is 0)", pos(f.Pos()), nPaths, a.Name(), b.Name()))
+	if nPaths == 0 {
+		o.Fail(token.NoPos, "%s: XorBytes has no returning path", pos(f.Pos()))
+	}
 }
 
 // xorLoops: every element-wise loop d[i] = x[i] ^ y[i] uses one index, and the loops of a
